@@ -15,10 +15,17 @@ def instances(tier, rng):
     cyc4 = vlib.universe("cyc", 4, maxe=6, k=2, w=2, l=1, cap=4)
     items = [("kLeastAbsErrors", u) for u in C.spread(dag, 60 if quick else 495)] + \
             [("kLeastAbsErrorsCycles", u) for u in C.spread(cyc, 12 if quick else 72) + C.spread(cyc4, 40 if quick else 500)]
+    mdag, mcyc = C.motifs()
+    items += [("kLeastAbsErrors", u) for u in mdag] + [("kLeastAbsErrorsCycles", u) for u in C.spread(mcyc, 8 if quick else 30)]
     insts = []
     g = 0
+    seen_shapes = set()
     for cls, u0 in items:
-        for u in (u0, F.perturb(u0, rng), F.wild(u0, rng)):
+        variants_u = [u0, F.perturb(u0, rng), F.wild(u0, rng)]
+        if cls == "kLeastAbsErrors" and len(u0["nodes"]) >= 5 and str(u0["edges"]) not in seen_shapes:
+            seen_shapes.add(str(u0["edges"]))
+            variants_u += F.bridge_patterns(u0)       # heavy routes over one light element
+        for u in variants_u:
             for k in ((1, 2) if quick else (1, 2, 3)):
                 feats = [{}]
                 extra = [{"mode": "node"}]
